@@ -198,29 +198,31 @@ theorem C04_no_panic_ring_size (ins : List TxIn) :
 open Monero.Panics in
 /-- `Transaction::consensus_decode`, whole: the panic-explicit decoder `txP` — control flow of the Rust function written
 out (early return on `inputs == 0`, `if inputs > 0` around `&prefix.inputs[0]`, `checked_sub(1)`), calling the
-panic-explicit `RctSigPrunable` decoder in which `1 + inputs` is a checked `usize` addition — reaches no panic site on any
-byte string, and returns exactly what the model `tx` (the one the correspondence run ties to the code) returns. The
-overflow is excluded because `inputs` is the length of a vector that passed the allocation cap
-(`inputs · size_of::<TxIn>() ≤ CAP`, constants from the regenerated tables). -/
+panic-explicit `RctSigPrunable` decoder in which the column count is the `usize` saturating sum — reaches no panic site on any
+byte string, and returns exactly what the model `tx` (the one the correspondence run ties to the code) returns
+(`inputs` is the length of a vector that passed the allocation cap: `inputs · size_of::<TxIn>() ≤ CAP`, constants from the
+regenerated tables). -/
 theorem C04_no_panic_tx (b : Bytes) : (txP b).isPanic = false ∧ (txP b).toOption = tx b := by
   rw [txP_eq]; exact ⟨ofOption_isPanic _, ofOption_toOption _⟩
 
 open Monero.Panics in
 /-- the PUBLIC function `RctSigPrunable::consensus_decode(r, rct_type, inputs, outputs, mixin)` called directly: for every
-reader content, type, output count and ring size, no panic site is reachable PROVIDED `1 + inputs` fits a `usize`; the
-precondition is needed (`C04_prunable_pre_needed`). -/
-theorem C04_no_panic_prunable (ty inputs outputs mixin : Nat) (b : Bytes) (h : 1 + inputs < 2 ^ 64) :
+reader content, type, output count, ring size and EVERY `usize` value of `inputs`, no panic site is reachable and the result
+is the model's. (Before the fix commit "fix: RctSigPrunable::consensus_decode computes the MLSAG column count with
+saturating_add" the column count was `1 + inputs`, which overflowed for `rct_type = Full`, `inputs = usize::MAX` — found by
+stating this theorem: the proof needed the hypothesis `1 + inputs < 2^64`, and the real library panicked at the excluded
+point, `c04_dec prunable 1 18446744073709551615 0 0 -`: "attempt to add with overflow", ringct.rs:774.) -/
+theorem C04_no_panic_prunable (ty inputs outputs mixin : Nat) (b : Bytes) (h : inputs < 2 ^ 64) :
     (prunableP ty inputs outputs mixin b).isPanic = false ∧
     (prunableP ty inputs outputs mixin b).toOption = prunable ty inputs outputs mixin b := by
   rw [prunableP_eq _ _ _ _ _ h]; exact ⟨ofOption_isPanic _, ofOption_toOption _⟩
-example : 1 + 16 < 2 ^ 64 := by decide
+example : 16 < 2 ^ 64 := by decide
 
 open Monero.Panics in
-/-- … and without it the panic IS reachable through the public API: `rct_type = Full`, `inputs = usize::MAX`,
-`outputs = 0`, `mixin = 0`, empty reader evaluates `1 + inputs` before any byte is read (observed on the real library by
-the harness operation `c04_dec prunable 1 18446744073709551615 0 0 -`: "attempt to add with overflow", ringct.rs:774).
-`Transaction::consensus_decode` never passes such a value (`C04_no_panic_tx`). -/
-theorem C04_prunable_pre_needed : (prunableP 1 (2 ^ 64 - 1) 0 0 []).isPanic = true := prunableP_panics_at_max
+/-- at the point that used to overflow (`Full`, `inputs = usize::MAX`, no outputs, empty reader) the decoder now refuses:
+the saturated column count exceeds the allocation cap -/
+theorem C04_prunable_at_usize_max :
+    (prunableP 1 (2 ^ 64 - 1) 0 0 []).isPanic = false ∧ (prunableP 1 (2 ^ 64 - 1) 0 0 []).toOption = none := prunableP_at_max
 
 /-- the raw extra of every PARSED transaction respects the cap of the byte-vector decoder, so
 `RawExtraField::from(tx.prefix.extra.try_parse())` — `deserialize(&serialize(..)).unwrap()` — cannot panic, whatever
